@@ -33,7 +33,7 @@ def run(ctx):
     # the command-line tool end to end: "across all output assemblies together" is about the FILES it writes — every in-memory assembly must be
     # written, under its documented name, with exactly its scaffolds, and the tool must finish (exit 0) whenever the in-process remap does
     # (wave 12, C01j: Primary-mode assemblies never written)
-    cli_cases = [R.make_case(ctx.rng, k) for k in ("script", "tagged", "tagged2", "primarymode", "primarymode", "hapmix") for _ in range(40 if ctx.thorough else 6)]
+    cli_cases = [R.make_case(ctx.rng, k) for k in ("script", "tagged", "tagged2", "primarymode", "primarynames", "hapmix") for _ in range(40 if ctx.thorough else 6)]
     R.run_cli_cases(ctx, "cli-end-to-end", cli_cases, None, only=["CLI exit", "CLI succeeded", "output file", "does not contain exactly", "unexpected assembly files"])
 
 
